@@ -18,7 +18,7 @@ def run(rep, tier):
     rep.assumptions += [
         "smoothing levels: at least two circles and three radial nodes per line (SmootherDomain)",
         "expected sweep computed in long double from the table; comparison 1e-10 relative to the largest entry of the result",
-        "energy-norm monotonicity is implied for an exact block Gauss-Seidel of an SPD operator (C05) and not measured separately",
+        "energy-norm monotonicity: measured with the exact table on the second and third sweep of every sampled instance (exploration level)",
     ]
     tabs = sc.tables(rep, tier, "c06", "abc")
     tabs = [t for t in tabs if t["nc"] >= 2 and t["nr"] - t["nc"] >= 3]
